@@ -594,3 +594,69 @@ def secret_context(fam, args):
     pre, suf = args["pre"], args["suf"]
     ok = r.startswith(pre) and r.endswith(suf) and len(r) > len(pre) + len(suf) and not any(c.isspace() for c in r[len(pre):len(r) - len(suf)])
     return dict(violated=not ok, observed=r, detail="%r -> %r" % (args["a"], r))
+
+
+@register("secret_history")
+def secret_history(fam, args):
+    """C08: several secret-bearing inputs sharing one lookup; equal secrets <=> equal replacements (per the given equality pattern)"""
+    _reseed_passlib()
+    mode, inputs, part, extract = args["mode"], args["inputs"], args["part"], args.get("extract")
+    lookup = {}
+    rx = fam.sir.generate_default_sensitive_item_regexes()
+    outs = []
+    try:
+        for x in inputs:
+            if mode == "value":
+                outs.append(fam.sir._anonymize_value(x, lookup, fam.words.default_reserved_words, "S"))
+            else:
+                outs.append(fam.sir.replace_matching_item(rx, x, lookup, "S", fam.words.default_reserved_words))
+    except Exception as e:
+        return dict(violated=True, observed=outs + ["EXC:%s" % type(e).__name__], detail="raised")
+    if mode == "value":
+        h, t, _ = zip(*[fam.sir._extract_enclosing_text(x) for x in inputs]) if False else (None, None, None)
+        cores = []
+        for x, o in zip(inputs, outs):
+            # strip the enclosing characters the harness added (longest common prefix/suffix of input and output made of non-alphanumerics)
+            i = 0
+            while i < min(len(x), len(o)) and x[i] == o[i] and not x[i].isalnum() and x[i] not in "$./":
+                i += 1
+            j = 0
+            while j < min(len(x), len(o)) - i and x[-1 - j] == o[-1 - j] and not x[-1 - j].isalnum() and x[-1 - j] not in "$./":
+                j += 1
+            cores.append(o[i:len(o) - j])
+    elif mode == "line":
+        cores = []
+        for o, (pre, suf) in zip(outs, extract):
+            if not (o.startswith(pre) and o.endswith(suf)):
+                return dict(violated=False, observed=outs, detail="context differs (not this property's subject)")
+            cores.append(o[len(pre):len(o) - len(suf)])
+    else:  # twice
+        toks = outs[0].split()
+        if max(extract) >= len(toks):
+            return dict(violated=False, observed=outs, detail="token structure differs")
+        cores = [toks[extract[0]], toks[extract[1]]]
+    why = []
+    for i in range(len(cores)):
+        for j in range(i + 1, len(cores)):
+            if (part[i] == part[j]) != (cores[i] == cores[j]):
+                why.append("inputs %d,%d: secrets %s but replacements %r / %r" % (i, j, "equal" if part[i] == part[j] else "different", cores[i], cores[j]))
+    return dict(violated=bool(why), observed=outs, detail="; ".join(why))
+
+
+@register("secret_juniper")
+def secret_juniper(fam, args):
+    J = fam.jun
+    vals = {"X": J.juniper_nonrandom_encrypt(args["p1"], args["s1"]), "Y": J.juniper_nonrandom_encrypt(args["p2"], args["s2"]), "P": args["p1"]}
+    lookup = {}
+    outs = {}
+    try:
+        for k in args["order"]:
+            outs[k] = fam.sir._anonymize_value(vals[k], lookup, fam.words.default_reserved_words, "S")
+        dx, dy = jun_reference_decrypt(outs["X"]), jun_reference_decrypt(outs["Y"])
+    except Exception as e:
+        return dict(violated=True, observed="EXC:%s" % type(e).__name__, detail=repr(e))
+    if args["same"]:
+        bad = not (dx == dy == outs["P"] and outs["X"] == outs["Y"])
+    else:
+        bad = dx == dy or dx != outs["P"]
+    return dict(violated=bad, observed=[vals, outs, dx, dy], detail="decrypt(X')=%r decrypt(Y')=%r P'=%r" % (dx, dy, outs["P"]))
